@@ -65,4 +65,31 @@ Proof.
         repeat split; apply W6; auto; lia.
 Qed.
 
+Lemma okdb_spec n s d : okdb n s d = true <-> okd n s d.
+Proof.
+  unfold okdb, okd. rewrite !andb_true_iff, !negb_true_iff, N.eqb_neq, N.ltb_lt. tauto.
+Qed.
+
+Lemma pre_callb_spec n s c : pre_callb n s c = true <-> pre_call n s c.
+Proof.
+  destruct c; cbn [pre_callb pre_call];
+    rewrite ?andb_true_iff, ?okdb_spec, ?negb_true_iff, ?N.eqb_neq, ?N.ltb_lt; tauto.
+Qed.
+
+Lemma block_preb_spec E n ks cs : forall c w cnt,
+  block_preb E n ks cs c w cnt = true <-> block_pre E n ks cs c w cnt.
+Proof.
+  induction cs as [|call rest IH]; intros c w cnt; cbn [block_preb block_pre]; [tauto|].
+  rewrite andb_true_iff, pre_callb_spec.
+  destruct (run E (call2_prog n ks call) c w cnt) as [[[x|e| |q] w'] cnt']; rewrite ?IH; tauto.
+Qed.
+
+Theorem pre_opb_spec fa st o : pre_opb fa st o = true <-> pre_op fa st o.
+Proof.
+  destruct o; cbn [pre_opb pre_op]; try tauto.
+  - rewrite negb_true_iff, N.eqb_neq. tauto.
+  - apply pre_callb_spec.
+  - apply block_preb_spec.
+Qed.
+
 End Dec.
